@@ -1524,29 +1524,45 @@ def err_sig(err):
     return re.sub(r"[^A-Za-z#' -]", "", re.sub(r"\d+", "#", " ".join(segs)))[:60].strip().replace(" ", "-")
 
 
+def _describe_token(rest, new_format):
+    """one possibly quoted token at the start of `rest` -> (token, remainder after the blank that follows it).
+    Old format (rdsquashfs 1.2.0): names are quoted when they contain ' ' or '"', only '"' is escaped.
+    New format (after the `fix: rdsquashfs --describe` commit): names *and link targets* are quoted when empty or containing
+    blank/tab/CR/'"'/'\\', with '"' and '\\' escaped."""
+    if rest.startswith(b'"'):
+        i, out = 1, bytearray()
+        while i < len(rest):
+            c = rest[i]
+            if c == 0x5C and i + 1 < len(rest) and (rest[i + 1] == 0x22 or (new_format and rest[i + 1] == 0x5C)):
+                out.append(rest[i + 1])
+                i += 2
+                continue
+            if c == 0x22:
+                break
+            out.append(c)
+            i += 1
+        return bytes(out), rest[i + 2:]
+    parts = rest.split(b" ", 1)
+    return parts[0], (parts[1] if len(parts) > 1 else b"")
+
+
 def parse_describe(out):
+    """`rdsquashfs -d` output -> {path: NS(type, perm, uid, gid, extra)}; both output formats (see _describe_token).  The new format
+    starts with a line for the root ('dir / mode uid gid'), which is skipped here (the root is observed through `-s /`)."""
     res, bad = {}, []
-    for line in out.split(b"\n"):
-        if not line:
+    lines = [l for l in out.split(b"\n") if l]
+    new_format = bool(lines) and lines[0].startswith(b"dir / ")
+    for n, line in enumerate(lines):
+        if new_format and n == 0:
             continue
         try:
             typ, rest = line.split(b" ", 1)
-            if rest.startswith(b'"'):
-                i, name = 1, bytearray()
-                while i < len(rest):
-                    if rest[i:i + 2] == b'\\"':
-                        name += b'"'
-                        i += 2
-                        continue
-                    if rest[i] == 0x22:
-                        break
-                    name.append(rest[i])
-                    i += 1
-                name, rest = bytes(name), rest[i + 2:]
-            else:
-                name, rest = rest.split(b" ", 1)
+            name, rest = _describe_token(rest, new_format)
             parts = rest.split(b" ", 3)
-            d = NS(type=typ.decode(), perm=int(parts[0], 8), uid=int(parts[1]), gid=int(parts[2]), extra=parts[3] if len(parts) > 3 else None)
+            extra = parts[3] if len(parts) > 3 else None
+            if new_format and typ == b"slink" and extra is not None:
+                extra = _describe_token(extra, True)[0]
+            d = NS(type=typ.decode(), perm=int(parts[0], 8), uid=int(parts[1]), gid=int(parts[2]), extra=extra)
             if name in res:
                 bad.append("path listed twice: %r" % name)
             res[name] = d
